@@ -40,6 +40,8 @@ CONSTANTS
   Rpbs = {%(rpbs)s}
   Sels = {%(sels)s}
   FeesSet = {0, 2}
+  BlockSets <- %(blocks)s
+  ConsSets <- %(cons)s
 %(rest)s
 CHECK_DEADLOCK FALSE
 """
@@ -86,9 +88,10 @@ def validate_v1(ctx, sd, trace, n_events, sig_prefix, what):
 def run_v1(ctx, sd, exe, q):
     """the legacy creator (rewards.go): R1 for the intended design and for the code as it is, TLC-enumerated and random runs"""
     base = dict(spec="MCSpec", log="LogLast", known="", depth=0, totals="30, 101", devs="0, 3", leaders="0, 4",
-                prots="0, 6", rpbs="0, 5, 20", sels="0, 2", rest="VIEW cvars\nINVARIANTS Inv_C35_V1_NoClauseViolated")
+                prots="0, 6", rpbs="0, 5, 20", sels="0, 2", blocks="MCBlockOne", cons="MCConsFew",
+                rest="VIEW cvars\nINVARIANTS Inv_C35_V1_NoClauseViolated")
     if q:
-        base.update(totals="101", devs="3", rpbs="5, 20")
+        base.update(totals="101", devs="3", leaders="4", rpbs="5, 20", blocks="MCBlockOne", cons="MCConsOne")
 
     def cfg(name, **kw):
         open(os.path.join(sd, name), "w").write(CFG_V1 % dict(base, **kw))
@@ -101,7 +104,8 @@ def run_v1(ctx, sd, exe, q):
         ctx.broken.append("the code-as-it-is variant of the V1 model no longer violates C35: the named deviation is not modelled")
     inp = ctx.path("inputs-v1.ndjson")
     g = ctx.tlc(sd, "MC_RewardsV1", cfg("v1gen.cfg", spec="GenSpec", log="LogAppend", depth=2, totals="101", devs="3", leaders="4",
-                                        prots="6", rpbs="5, 20" if q else "0, 5, 20",
+                                        prots="6", rpbs="20" if q else "0, 5, 20", sels="2" if q else "0, 2",
+                                        blocks="MCBlockOne", cons="MCConsOne" if q else "MCConsFew",
                                         rest="VIEW cvars\nACTION_CONSTRAINT EmitInput"),
                 timeout=1500, behaviours_out=inp, count=False)
     if g.ok and g.behaviours == 0:
@@ -147,9 +151,9 @@ def run(ctx):
                 blocks="MCBlockFew", cons="MCConsFew", sels="0, 2", topups="0, 3", fees="0, 2", tus="0, 3, 10", nodes=3,
                 rest="VIEW cvars\nINVARIANTS Inv_C35_NoClauseViolated Inv_C35_DustNonNegative Inv_C35_StagesBounded")
     if q:
-        base.update(totals="7, 101", tus="0, 10")
+        base.update(totals="101", tus="0, 10")
     else:
-        base.update(totals="0, 7, 60, 101", tus="0, 3, 10")
+        base.update(totals="7, 101", tus="0, 3, 10")
 
     def cfg(name, **kw):
         open(os.path.join(sd, name), "w").write(CFG % dict(base, **kw))
@@ -158,6 +162,7 @@ def run(ctx):
     # R1: every consistent small input through the five stages: sum identity, positivity, destinations, non-negative
     #     remainders, per-node rewards bounded
     r1 = ctx.tlc(sd, "MC_Rewards", cfg("r1.cfg"), timeout=3000, coverage=not q, heap="8g")
+    ctx.notes.append("R1 V2: %.0fs" % r1.wall)
     if not q and r1.ok and r1.coverage_zero:
         ctx.broken.append("vacuity guard: never taken: %s" % sorted(set(r1.coverage_zero)))
     if not q:
